@@ -291,7 +291,14 @@ def dispatch_chain(fn: ast.FunctionDef):
                 best = chain
     if best is None:
         raise AnalysisError(f"{fn.name}: prefix dispatch chain not found")
-    return best
+    # one branch for several prefixes (`prefix in (PAD, START, STOP)`): an entry per prefix, same test and body
+    out = []
+    for m, t, b in best:
+        if isinstance(m, str) and m.startswith("in:"):
+            out += [(x, t, b) for x in m[3:].split("|")]
+        else:
+            out.append((m, t, b))
+    return out
 
 
 def _is_elif(n: ast.If) -> bool:
@@ -305,7 +312,12 @@ def enum_member_in_test(t: ast.AST):
             m = enum_member(t.comparators[0], "TokenisationPrefixes") or enum_member(t.left, "TokenisationPrefixes")
             return m
         if isinstance(t.ops[0], ast.In):
-            return enum_member(t.left, "TokenisationPrefixes")
+            m = enum_member(t.left, "TokenisationPrefixes")
+            if m is None and isinstance(t.comparators[0], (ast.Tuple, ast.List, ast.Set)) and t.comparators[0].elts:
+                ms = [enum_member(e, "TokenisationPrefixes") for e in t.comparators[0].elts]
+                if all(x is not None for x in ms):
+                    return "in:" + "|".join(ms)             # one branch for several prefixes (the ignored ones)
+            return m
         if isinstance(t.ops[0], (ast.NotEq, ast.IsNot)):
             # a branch selected by "is not this prefix": part of the chain, but not the branch *of* that prefix
             m = enum_member(t.comparators[0], "TokenisationPrefixes") or enum_member(t.left, "TokenisationPrefixes")
